@@ -11,6 +11,8 @@ CONSTANTS
   DirectCalls = TRUE
   MaxMsgLen = 1
   AsyncApply = FALSE
+  MaxPerRequest = 99
+  RecursiveRLock = FALSE
 INVARIANTS TypeOK InSyncUnlessAmbiguous SetTracksDeps NoDeadlock
 
 PROPERTIES ConvergesUnlessAmbiguous CallerReturns KeepsRetrying
